@@ -29,7 +29,7 @@ impl Prop for C01 {
         if tier == Tier::Thorough {
             vec!["count_0xfd_or_more", "len_64k_or_more", "segwit_tx", "verify_on", "midrun_flush", "txcount_65536"]
         } else {
-            vec!["count_0xfd_or_more", "segwit_tx", "verify_on", "midrun_flush"]
+            vec!["count_0xfd_or_more", "segwit_tx", "verify_on", "midrun_flush", "noncanonical_compactsize"]
         }
     }
     fn explore(&self, item: u64, rng: &mut Rng, tier: Tier, h: &mut Harness) -> Result<(), String> {
@@ -77,6 +77,17 @@ impl Prop for C01 {
                 edge_values: true,
             };
             scn.chain.push(rich_block(coin, i as u64, n_tx, rng, if n_tx > 200 { &small } else { &sh }, arbitrary));
+        }
+        // wider-than-necessary CompactSize encodings (kept verbatim by VarUint.buf, txid over the stored bytes)
+        if rng.chance(1, 8) {
+            scn.family = "noncanonical-compactsize".into();
+            for b in scn.chain.iter_mut().skip(if gen0.is_some() { 1 } else { 0 }) {
+                for t in b.txs.iter_mut() {
+                    if rng.coin() {
+                        t.cs_width = *rng.pick(&[3u8, 5, 9]);
+                    }
+                }
+            }
         }
         let mut lay = random_layout(scn.chain.len(), 3, true, rng);
         if rng.chance(1, 3) {
@@ -144,6 +155,9 @@ impl Prop for C01 {
         }
         if r.verify {
             st.probe("verify_on");
+        }
+        if scn.chain.iter().any(|b| b.txs.iter().any(|t| t.cs_width > 1)) {
+            st.probe("noncanonical_compactsize");
         }
         if scn.chain.iter().any(|b| b.auxpow.is_some()) {
             st.probe("auxpow_block");
